@@ -36,15 +36,15 @@ struct Source
 // choices decoded from the case bytes; when they run out: round robin (so every thread keeps making progress)
 struct ByteSource : public Source
 {
-   vf::BS & bs; uint32_t rr;
-   ByteSource(vf::BS & b) : bs(b), rr(0) {}
+   vf::BS & bs; uint32_t rr; uint8_t stayMask;     // the running thread continues when (byte & stayMask) != 0
+   ByteSource(vf::BS & b, uint8_t stay = 0xC0) : bs(b), rr(0), stayMask(stay) {}
    virtual uint32_t Pick(uint32_t n, int cur)
    {
       if (n <= 1) return Record(n, 0, cur);
       if (bs.done()) {rr++; return Record(n, ((cur >= 0)&&(rr%8 != 0)) ? (uint32_t)cur : ((rr/8)%n), cur);}    // out of bytes: mostly let the current thread run on, but hand over regularly so that polling loops cannot starve the others
       const uint8_t b = bs.u8();
       // bias towards staying on the current thread (long runs + few preemptions find more than uniform noise)
-      if ((cur >= 0)&&((b & 0xC0) != 0)) return Record(n, (uint32_t)cur, cur);
+      if ((cur >= 0)&&((b & stayMask) != 0)) return Record(n, (uint32_t)cur, cur);
       return Record(n, (uint32_t)(b%n), cur);
    }
 };
